@@ -274,16 +274,28 @@ def skipPhase (p : Phase) (sub : Option Nat) (st : St) : St :=
 
 def setLast (st : St) (r : Res) : St := { st with last := st.last <|> some r }
 
+/-- what the executor does with the outcome of a phase or checkpoint: a terminal one is remembered
+    (the first one only) and returns TERMINAL; FAIL_SUBTEST marks the current subtest record -/
+def finishNode (st : St) (outcome : Res) : St × Ret :=
+  if outcome.isTerminal then (setLast st outcome, .term)
+  else if outcome == .pr .failSub then ({ st with subFail := true }, .cont)
+  else (st, .cont)
+
+/-- the last phase record written (if any) has outcome FAIL -/
+def lastIsFail (st : St) : Bool :=
+  match st.phases.getLast? with
+  | some rec_ => rec_.outcome == .fail
+  | none => false
+
+/-- stop_on_first_failure: a FAIL record (the last one written) turns the outcome into STOP -/
+def sofOutcome (cfg : Cfg) (st : St) (r : Res) : Res :=
+  if cfg.stopOnFirstFailure && lastIsFail st then .pr .stop else r
+
 /-- `TestExecutor._execute_phase` for a phase that is not skipped: the invocation loop, then
     stop_on_first_failure, then the terminal / FAIL_SUBTEST bookkeeping -/
 def runPhase (cfg : Cfg) (p : Phase) (sub : Option Nat) (st : St) : St × Ret :=
   let r := executePhase cfg p sub st
-  let stopNow := cfg.stopOnFirstFailure &&
-    (match r.1.phases.getLast? with | some rec_ => rec_.outcome == .fail | none => false)
-  let outcome : Res := if stopNow then .pr .stop else r.2
-  if outcome.isTerminal then (setLast r.1 outcome, .term)
-  else if outcome == .pr .failSub then ({ r.1 with subFail := true }, .cont)
-  else (r.1, .cont)
+  finishNode r.1 (sofOutcome cfg r.1 r.2)
 
 /-- `TestExecutor._execute_phase` -/
 def execPhaseNode (cfg : Cfg) (p : Phase) (sub : Option Nat) (td : Bool) (st : St) : St × Ret :=
@@ -321,10 +333,7 @@ def checkpointResult (c : Ckpt) (sub : Option Nat) (st : St) : Res :=
 /-- a checkpoint that is not skipped: evaluated once, recorded once, acts as a failed phase if triggered -/
 def evalCheckpoint (c : Ckpt) (sub : Option Nat) (st : St) : St × Ret :=
   let r := checkpointResult c sub st
-  let st := { st with checkpoints := st.checkpoints ++ [(c.id, sub, r)] }
-  if r.isTerminal then (setLast st r, .term)
-  else if r == .pr .failSub then ({ st with subFail := true }, .cont)
-  else (st, .cont)
+  finishNode { st with checkpoints := st.checkpoints ++ [(c.id, sub, r)] } r
 
 /-- `TestExecutor._execute_checkpoint` -/
 def execCheckpoint (c : Ckpt) (sub : Option Nat) (td : Bool) (st : St) : St × Ret :=
